@@ -32,6 +32,7 @@ const convxModule = `module cx {
   leaf bt { type bits { bit b0 { position 0; } bit b1; bit b5 { position 5; } } }
   leaf idr { type identityref { base ibase; } }
   leaf un { type union { type int32; type boolean; } }
+  leaf us { type union { type int32; type string; } }
   leaf-list ls { type string; }
   leaf-list len { type enumeration { enum zeta { value 0; } enum one; enum alpha { value 5; } } }
   leaf-list lb { type boolean; }
